@@ -118,6 +118,10 @@ def implFill (m : Mem) (d : View) (v : Nat) : Mem := (implFillAddrs d).foldl (fu
 def implEqual (m : Mem) (a b : View) (eq : Nat → Nat → Bool) : Bool :=
   ((implSide a).zip (implSide b)).all (fun p => eq (m.get p.1) (m.get p.2))
 
+/-- image operator==: different dimensions -> false, else equal_pixels(const_view(a), const_view(b)); operator!= is its negation -/
+def implImageEq (m : Mem) (a b : View) (eq : Nat → Nat → Bool) : Bool :=
+  if a.w = b.w ∧ a.h = b.h then implEqual m a b eq else false
+
 /-- for_each_pixel / generate_pixels: same two-way split as fill_pixels -/
 def implGenerate (m : Mem) (d : View) (f : Nat → Nat) : Mem :=
   ((implFillAddrs d).zipIdx.map (fun p => (p.1, f p.2))).foldl (fun m p => m.set p.1 p.2) m
